@@ -726,7 +726,7 @@ Definition w_example : world :=
   mkWorld 0 10000000000 FNone
     [mkPool "dyn" true (Some ["it-a"]) false (Some 30000000000) "WhenEmptyOrUnderutilized" (Some 600000000000);
      mkPool "static" true (Some ["it-a"]) true None "WhenEmptyOrUnderutilized" None]
-    [mkPdb "default" "pdb1" (Some [("app", "p1")]) 0 false]
+    [mkPdb "default" "pdb1" (Some ([("app", "p1")], [])) 0 false]
     [mkSNode "busy" (Some (mkClaim (base_labels "dyn") [] false None (Some CTrue) (Some CTrue) false))
              (Some (mkNode (base_node_labels "dyn") [] false))
              [mkPod "default" "p2" [("app", "p2")] "Running" false [("apps/v1", "ReplicaSet")] [] None (Some 0) [] None None] false 0;
